@@ -36,7 +36,7 @@ MULTI_OK = ["ATTACH", "ATTENDEE", "COMMENT", "CONTACT", "EXDATE", "RDATE", "RRUL
 
 def dec_value(x, provider=None):
     k = x["k"]
-    if k in ("date", "naive", "utc", "zoned", "td", "none"):
+    if k in ("date", "naive", "utc", "zoned", "td", "none", "fixed"):
         return V.dec(x, provider)
     if k in ("text", "uri", "caladdr"):
         return x["v"]
@@ -66,6 +66,8 @@ def dec_value(x, provider=None):
         return [V.dec(d, provider) for d in x["v"]]
     if k == "periods":
         return [dec_value(p, provider) for p in x["v"]]
+    if k == "mixed":       # one list holding values of several kinds (date, date-time, period): accepted by add(); used by C10 only
+        return [dec_value(p, provider) if p["k"] == "period" else V.dec(p, provider) for p in x["v"]]
     raise ValueError(k)
 
 
